@@ -158,4 +158,380 @@ theorem undoN_redoN (n p : Nat) (X : List Nat) (hn : 0 < n) (hl : X.length = n) 
       rw [ih (p+1) (by omega) _ hlen]
       exact foldl_step_cancel' (p+1) (List.range n) X (by rw [hl]; exact hn) (fun i hi => by rw [hl]; exact List.mem_range.mp hi)
 
+/-! ### Gray code on a list of words -/
+
+/-- the mask accumulated from the Gray code of `b` is `b >> 1` -/
+theorem tLoop_gray (p b : Nat) (h : b < 2 ^ p) : tLoop (p - 1) 0 (b ^^^ (b >>> 1)) = b >>> 1 := by
+  apply Nat.eq_of_testBit_eq; intro j
+  rw [tLoop_testBit, xorBits_gray, Nat.zero_testBit, Bool.false_xor, Nat.testBit_shiftRight]
+  by_cases hj : j < p - 1
+  · have h1 : b.testBit (p - 1 + 1) = false := testBit_ge_of_lt h (by omega)
+    have h2 : 1 + j = j + 1 := by omega
+    simp [hj, h1, h2]
+  · have h1 : b.testBit (1 + j) = false := testBit_ge_of_lt h (by omega)
+    simp [hj, h1]
+
+/-- the accumulated mask `t` of a word `y` satisfies `t = (y xor t) >> 1` -/
+theorem tLoop_fix (p y : Nat) (hy : y < 2 ^ p) : ((y ^^^ tLoop (p - 1) 0 y) >>> 1) = tLoop (p - 1) 0 y := by
+  apply Nat.eq_of_testBit_eq; intro j
+  rw [Nat.testBit_shiftRight, Nat.testBit_xor, tLoop_testBit, tLoop_testBit, Nat.zero_testBit,
+    Nat.zero_testBit, Bool.false_xor, Bool.false_xor, show 1 + j = j + 1 by omega,
+    xorBits_succ y j (p - 1)]
+  by_cases hj : j + 1 ≤ p - 1
+  · simp [hj]
+  · have : y.testBit (j+1) = false := testBit_ge_of_lt hy (by omega)
+    simp [hj, this]
+
+/-- the words `g s, g (s+1), …` accumulate to `X[i] xor t` when `g` is the adjacent-xor decode of `X` -/
+theorem prefixXor_decode (X : List Nat) (t : Nat) (k s acc : Nat)
+    (hacc : acc = if s = 0 then 0 else X.getD (s - 1) 0 ^^^ t) :
+    prefixXor acc ((List.range' s k).map (fun i => if i = 0 then X.getD 0 0 ^^^ t else X.getD i 0 ^^^ X.getD (i - 1) 0))
+      = (List.range' s k).map (fun i => X.getD i 0 ^^^ t) := by
+  induction k generalizing s acc with
+  | zero => rfl
+  | succ k ih =>
+    rw [List.range'_succ, List.map_cons, List.map_cons, prefixXor]
+    have hhead : (if s = 0 then X.getD 0 0 ^^^ t else X.getD s 0 ^^^ X.getD (s - 1) 0) ^^^ acc = X.getD s 0 ^^^ t := by
+      subst hacc
+      by_cases hs : s = 0
+      · subst hs; simp
+      · simp only [hs, if_false]
+        apply Nat.eq_of_testBit_eq; intro i
+        simp only [Nat.testBit_xor]
+        cases (X.getD s 0).testBit i <;> cases (X.getD (s - 1) 0).testBit i <;> cases t.testBit i <;> rfl
+    rw [hhead]
+    congr 1
+    exact ih (s + 1) (X.getD s 0 ^^^ t) (by simp)
+
+theorem getD_map_range (n : Nat) (f : Nat → Nat) (i : Nat) (h : i < n) : ((List.range n).map f).getD i 0 = f i := by
+  simp [List.getD_eq_getElem?_getD, List.getElem?_map, List.getElem?_range h]
+
+theorem map_getD_range (X : List Nat) : (List.range X.length).map (fun i => X.getD i 0) = X := by
+  apply List.ext_getElem?
+  intro k
+  by_cases hk : k < X.length
+  · simp [List.getElem?_map, List.getElem?_range hk, List.getD_eq_getElem?_getD, List.getElem?_eq_getElem hk]
+  · simp [List.getElem?_eq_none (Nat.le_of_not_lt hk)]
+    omega
+
+/-- **Gray encode after Gray decode is the identity** on a list of words whose last word is below `2^p` -/
+theorem grayEncodeN_decodeN (p : Nat) (X : List Nat) (hne : 0 < X.length) (hlast : X.getD (X.length - 1) 0 < 2 ^ p) :
+    grayEncodeN p (grayDecodeN X) = X := by
+  unfold grayEncodeN grayDecodeN
+  simp only
+  have hpre := prefixXor_decode X (X.getD (X.length - 1) 0 >>> 1) X.length 0 0 (by simp)
+  rw [← List.range_eq_range'] at hpre
+  rw [hpre]
+  simp only [List.length_map, List.length_range]
+  rw [getD_map_range X.length _ (X.length - 1) (by omega), tLoop_gray p _ hlast, List.map_map]
+  conv => rhs; rw [← map_getD_range X]
+  apply List.map_congr_left
+  intro i _
+  simp only [Function.comp]
+  exact xor_xor_cancel _ _
+
+theorem length_prefixXor (acc : Nat) (X : List Nat) : (prefixXor acc X).length = X.length := by
+  induction X generalizing acc with
+  | nil => rfl
+  | cons x xs ih => simp [prefixXor, ih]
+
+theorem prefixXor_zero (acc : Nat) (X : List Nat) (h : 0 < X.length) : (prefixXor acc X).getD 0 0 = X.getD 0 0 ^^^ acc := by
+  cases X with
+  | nil => simp at h
+  | cons x xs => simp [prefixXor]
+
+theorem prefixXor_succ (acc : Nat) (X : List Nat) (i : Nat) (h : i + 1 < X.length) :
+    (prefixXor acc X).getD (i + 1) 0 = X.getD (i + 1) 0 ^^^ (prefixXor acc X).getD i 0 := by
+  induction X generalizing acc i with
+  | nil => simp at h
+  | cons x xs ih =>
+    cases i with
+    | zero =>
+      simp only [prefixXor, List.getD_cons_succ, List.getD_cons_zero]
+      rw [prefixXor_zero _ xs (by simpa using h)]
+    | succ i =>
+      simp only [prefixXor, List.getD_cons_succ]
+      exact ih (x ^^^ acc) i (by simpa using h)
+
+theorem prefixXor_lt (p acc : Nat) (X : List Nat) (hacc : acc < 2 ^ p) (hX : ∀ x ∈ X, x < 2 ^ p) :
+    ∀ y ∈ prefixXor acc X, y < 2 ^ p := by
+  induction X generalizing acc with
+  | nil => intro y hy; simp [prefixXor] at hy
+  | cons x xs ih =>
+    intro y hy
+    simp only [prefixXor, List.mem_cons] at hy
+    have hx : x ^^^ acc < 2 ^ p := Nat.xor_lt_two_pow (hX x (by simp)) hacc
+    rcases hy with rfl | hy
+    · exact hx
+    · exact ih (x ^^^ acc) hx (fun z hz => hX z (by simp [hz])) y hy
+
+theorem getD_mem_lt (p : Nat) (X : List Nat) (hX : ∀ x ∈ X, x < 2 ^ p) (i : Nat) : X.getD i 0 < 2 ^ p := by
+  by_cases hi : i < X.length
+  · rw [List.getD_eq_getElem?_getD, List.getElem?_eq_getElem hi]
+    exact hX _ (List.getElem_mem hi)
+  · rw [List.getD_eq_getElem?_getD, List.getElem?_eq_none (Nat.le_of_not_lt hi)]
+    exact Nat.two_pow_pos p
+
+theorem getD_map (f : Nat → Nat) (X : List Nat) (i : Nat) (h : i < X.length) : (X.map f).getD i 0 = f (X.getD i 0) := by
+  simp [List.getD_eq_getElem?_getD, List.getElem?_map, List.getElem?_eq_getElem h]
+
+/-- **Gray decode after Gray encode is the identity** on words below `2^p` -/
+theorem grayDecodeN_encodeN (p : Nat) (X : List Nat) (hne : 0 < X.length) (hX : ∀ x ∈ X, x < 2 ^ p) :
+    grayDecodeN (grayEncodeN p X) = X := by
+  have hY := prefixXor_lt p 0 X (Nat.two_pow_pos p) hX
+  have hlen : (prefixXor 0 X).length = X.length := length_prefixXor 0 X
+  unfold grayDecodeN grayEncodeN
+  simp only [List.length_map, hlen]
+  have hlast : (prefixXor 0 X).getD (X.length - 1) 0 < 2 ^ p := getD_mem_lt p _ hY _
+  rw [getD_map _ _ (X.length - 1) (by rw [hlen]; omega), tLoop_fix p _ hlast]
+  conv => rhs; rw [← map_getD_range X]
+  apply List.map_congr_left
+  intro i hi
+  have hi' := List.mem_range.mp hi
+  by_cases h0 : i = 0
+  · subst h0
+    simp only [if_true]
+    rw [getD_map _ _ 0 (by rw [hlen]; exact hne), xor_xor_cancel, prefixXor_zero 0 X hne, Nat.xor_zero]
+  · simp only [h0, if_false]
+    obtain ⟨j, rfl⟩ : ∃ j, i = j + 1 := ⟨i - 1, by omega⟩
+    rw [getD_map _ _ (j + 1) (by rw [hlen]; exact hi'), getD_map _ _ (j + 1 - 1) (by rw [hlen]; omega),
+      Nat.add_sub_cancel, prefixXor_succ 0 X j hi']
+    apply Nat.eq_of_testBit_eq; intro k
+    simp only [Nat.testBit_xor]
+    cases (X.getD (j + 1) 0).testBit k <;> cases ((prefixXor 0 X).getD j 0).testBit k <;>
+      cases (tLoop (p - 1) 0 ((prefixXor 0 X).getD (X.length - 1) 0)).testBit k <;> rfl
+
+/-! ### the transpose (bit de-interleaving) and its inverse -/
+
+theorem bitsum_succ (k : Nat) (f : Nat → Bool) : bitsum (k + 1) f = bitsum k f + (if f k then 2 ^ k else 0) := by
+  unfold bitsum
+  rw [List.range_succ, List.foldl_append]
+  rfl
+
+theorem bitsum_spec (k : Nat) (f : Nat → Bool) :
+    bitsum k f < 2 ^ k ∧ ∀ e, (bitsum k f).testBit e = (decide (e < k) && f e) := by
+  induction k with
+  | zero => simp [bitsum]
+  | succ k ih =>
+    obtain ⟨hlt, hbit⟩ := ih
+    rw [bitsum_succ]
+    by_cases hf : f k = true
+    · simp only [hf, if_true]
+      constructor
+      · rw [Nat.pow_succ]; omega
+      · intro e
+        have := Nat.testBit_two_pow_mul_add 1 hlt e
+        rw [Nat.mul_one, Nat.add_comm] at this
+        rw [this]
+        by_cases he : e < k
+        · simp [he, hbit, show e < k + 1 by omega]
+        · by_cases hek : e = k
+          · subst hek; simp [hf]
+          · have h1 : ¬ e < k + 1 := by omega
+            have h2 : e - k ≠ 0 := by omega
+            have h3 : Nat.testBit 1 (e - k) = false := by
+              cases hb : Nat.testBit 1 (e - k) with
+              | false => rfl
+              | true => exact absurd (Nat.testBit_one_eq_true_iff_self_eq_zero.mp hb) h2
+            simp [he, h1, h3]
+    · have hf' : f k = false := by simpa using hf
+      simp only [hf', Bool.false_eq_true, if_false, Nat.add_zero]
+      constructor
+      · rw [Nat.pow_succ]; omega
+      · intro e
+        rw [hbit]
+        by_cases he : e < k
+        · simp [he, show e < k + 1 by omega]
+        · by_cases hek : e = k
+          · subst hek; simp [hf']
+          · simp [he, show ¬ e < k + 1 by omega]
+
+theorem bitsum_lt (k : Nat) (f : Nat → Bool) : bitsum k f < 2 ^ k := (bitsum_spec k f).1
+theorem testBit_bitsum (k : Nat) (f : Nat → Bool) (e : Nat) : (bitsum k f).testBit e = (decide (e < k) && f e) :=
+  (bitsum_spec k f).2 e
+
+theorem transposeWord_lt (p n i h : Nat) : transposeWord p n i h < 2 ^ p := bitsum_lt p _
+
+theorem length_toTranspose (p n h : Nat) : (toTranspose p n h).length = n := by simp [toTranspose]
+
+/-- **re-interleaving the transposed words gives the distance back** -/
+theorem fromTranspose_toTranspose (p n h : Nat) (hn : 0 < n) (hh : h < 2 ^ (n * p)) :
+    fromTranspose p (toTranspose p n h) = h := by
+  apply Nat.eq_of_testBit_eq
+  intro e
+  unfold fromTranspose
+  simp only [length_toTranspose]
+  rw [testBit_bitsum]
+  by_cases he : e < n * p
+  · simp only [he, decide_true, Bool.true_and]
+    have hmod : e % n < n := Nat.mod_lt e hn
+    have hidx : n - 1 - e % n < n := by omega
+    unfold toTranspose
+    rw [getD_map_range n _ _ hidx]
+    unfold transposeWord
+    rw [testBit_bitsum]
+    have hdiv : e / n < p := by
+      rw [Nat.div_lt_iff_lt_mul hn]; rw [Nat.mul_comm]; exact he
+    simp only [hdiv, decide_true, Bool.true_and]
+    congr 1
+    have : n - 1 - (n - 1 - e % n) = e % n := by omega
+    rw [this]
+    exact (Nat.div_add_mod e n)
+  · simp only [he, decide_false, Bool.false_and]
+    exact (testBit_ge_of_lt hh (by omega)).symm
+
+/-- **transposing an interleaved word list gives the words back** -/
+theorem toTranspose_fromTranspose (p : Nat) (X : List Nat) (hn : 0 < X.length) (hX : ∀ x ∈ X, x < 2 ^ p) :
+    toTranspose p X.length (fromTranspose p X) = X := by
+  unfold toTranspose
+  conv => rhs; rw [← map_getD_range X]
+  apply List.map_congr_left
+  intro i hi
+  have hi' := List.mem_range.mp hi
+  apply Nat.eq_of_testBit_eq
+  intro j
+  unfold transposeWord
+  rw [testBit_bitsum]
+  by_cases hj : j < p
+  · simp only [hj, decide_true, Bool.true_and]
+    unfold fromTranspose
+    simp only
+    rw [testBit_bitsum]
+    have hlt : X.length * j + (X.length - 1 - i) < X.length * p := by
+      have : X.length * j + X.length ≤ X.length * p := by
+        rw [← Nat.mul_succ]; exact Nat.mul_le_mul_left _ hj
+      omega
+    simp only [hlt, decide_true, Bool.true_and]
+    have hr : X.length - 1 - i < X.length := by omega
+    have hmod : (X.length * j + (X.length - 1 - i)) % X.length = X.length - 1 - i := by
+      rw [Nat.mul_add_mod]; exact Nat.mod_eq_of_lt hr
+    have hdiv : (X.length * j + (X.length - 1 - i)) / X.length = j := by
+      rw [Nat.mul_add_div hn, Nat.div_eq_of_lt hr, Nat.add_zero]
+    rw [hmod, hdiv]
+    congr 2
+    omega
+  · simp only [hj, decide_false, Bool.false_and]
+    exact (testBit_ge_of_lt (getD_mem_lt p X hX i) (by omega)).symm
+
+/-! ### words stay below `2^p` -/
+
+def AllLt (p : Nat) (X : List Nat) : Prop := ∀ x ∈ X, x < 2 ^ p
+
+theorem allLt_set {p : Nat} {X : List Nat} (h : AllLt p X) (i v : Nat) (hv : v < 2 ^ p) : AllLt p (X.set i v) := by
+  intro x hx
+  rcases List.mem_or_eq_of_mem_set hx with h1 | h1
+  · exact h x h1
+  · rw [h1]; exact hv
+
+theorem step_allLt {p q : Nat} (hq : q ≤ p) (i : Nat) {X : List Nat} (h : AllLt p X) : AllLt p (step q i X) := by
+  have hP : 2 ^ q - 1 < 2 ^ p := mask_lt hq
+  have g : ∀ k, X.getD k 0 < 2 ^ p := getD_mem_lt p X h
+  unfold step
+  simp only
+  split
+  · exact allLt_set h 0 _ (Nat.xor_lt_two_pow (g 0) hP)
+  · have ht : (X.getD 0 0 ^^^ X.getD i 0) &&& (2 ^ q - 1) < 2 ^ p :=
+      Nat.lt_of_le_of_lt Nat.and_le_right hP
+    have h1 := allLt_set h 0 _ (Nat.xor_lt_two_pow (g 0) ht)
+    exact allLt_set h1 i _ (Nat.xor_lt_two_pow (getD_mem_lt p _ h1 i) ht)
+
+theorem foldl_step_allLt {p q : Nat} (hq : q ≤ p) (is : List Nat) {X : List Nat} (h : AllLt p X) :
+    AllLt p (is.foldl (fun Z i => step q i Z) X) := by
+  induction is generalizing X with
+  | nil => exact h
+  | cons i rest ih => exact ih (step_allLt hq i h)
+
+theorem redoLoopN_allLt (n k p : Nat) (hk : k ≤ p + 1) {X : List Nat} (h : AllLt p X) : AllLt p (redoLoopN n k X) := by
+  induction k using Nat.strongRecOn generalizing X with
+  | _ k ih =>
+    match k with
+    | 0 => exact h
+    | 1 => exact h
+    | (k+2) =>
+      simp only [redoLoopN]
+      exact ih (k+1) (by omega) (by omega) (foldl_step_allLt (by omega) _ h)
+
+theorem undoLoopN_allLt (n k p : Nat) (hk : k ≤ p + 1) {X : List Nat} (h : AllLt p X) : AllLt p (undoLoopN n k X) := by
+  induction k using Nat.strongRecOn generalizing X with
+  | _ k ih =>
+    match k with
+    | 0 => exact h
+    | 1 => exact h
+    | (k+2) =>
+      simp only [undoLoopN]
+      exact foldl_step_allLt (by omega) _ (ih (k+1) (by omega) (by omega) h)
+
+theorem grayEncodeN_allLt (p : Nat) (hp : 1 ≤ p) {X : List Nat} (h : AllLt p X) : AllLt p (grayEncodeN p X) := by
+  unfold grayEncodeN
+  simp only
+  have hY := prefixXor_lt p 0 X (Nat.two_pow_pos p) h
+  have ht : tLoop (p - 1) 0 ((prefixXor 0 X).getD ((prefixXor 0 X).length - 1) 0) < 2 ^ p :=
+    Nat.lt_of_lt_of_le (tLoop_lt _ _) (Nat.pow_le_pow_right (by omega) (by omega))
+  intro x hx
+  simp only [List.mem_map] at hx
+  obtain ⟨y, hy, rfl⟩ := hx
+  exact Nat.xor_lt_two_pow (hY y hy) ht
+
+theorem length_grayEncodeN (p : Nat) (X : List Nat) : (grayEncodeN p X).length = X.length := by
+  simp [grayEncodeN, length_prefixXor]
+
+theorem length_grayDecodeN (X : List Nat) : (grayDecodeN X).length = X.length := by simp [grayDecodeN]
+
+/-! ### the two round trips, every order, every dimension -/
+
+/-- **distance → coordinates → distance** -/
+theorem distN_coordN (p n h : Nat) (hn : 0 < n) (hh : h < 2 ^ (n * p)) : distN p (coordN p n h) = h := by
+  unfold distN coordN
+  have hT : (toTranspose p n h).length = n := length_toTranspose p n h
+  have hG : (grayDecodeN (toTranspose p n h)).length = n := by rw [length_grayDecodeN, hT]
+  rw [length_undoLoopN, hG, redoN_undoN n p _ hn hG]
+  rw [grayEncodeN_decodeN p _ (by rw [hT]; exact hn)]
+  · exact fromTranspose_toTranspose p n h hn hh
+  · rw [hT]
+    unfold toTranspose
+    rw [getD_map_range n _ _ (by omega)]
+    exact transposeWord_lt p n _ h
+
+/-- **coordinates → distance → coordinates** -/
+theorem coordN_distN (p : Nat) (hp : 1 ≤ p) (X : List Nat) (hn : 0 < X.length) (hX : AllLt p X) :
+    coordN p X.length (distN p X) = X := by
+  unfold distN coordN
+  have hR : (redoLoopN X.length p X).length = X.length := length_redoLoopN _ _ _
+  have hRl : AllLt p (redoLoopN X.length p X) := redoLoopN_allLt _ p p (by omega) hX
+  have hE : (grayEncodeN p (redoLoopN X.length p X)).length = X.length := by rw [length_grayEncodeN, hR]
+  have hEl : AllLt p (grayEncodeN p (redoLoopN X.length p X)) := grayEncodeN_allLt p hp hRl
+  have := toTranspose_fromTranspose p (grayEncodeN p (redoLoopN X.length p X)) (by rw [hE]; exact hn) hEl
+  rw [hE] at this
+  rw [this, grayDecodeN_encodeN p _ (by rw [hR]; exact hn) hRl]
+  exact undoN_redoN X.length p X hn rfl
+
+theorem grayDecodeN_allLt (p : Nat) {X : List Nat} (h : AllLt p X) : AllLt p (grayDecodeN X) := by
+  have g : ∀ k, X.getD k 0 < 2 ^ p := getD_mem_lt p X h
+  intro x hx
+  unfold grayDecodeN at hx
+  simp only [List.mem_map, List.mem_range] at hx
+  obtain ⟨i, _, rfl⟩ := hx
+  split
+  · apply Nat.xor_lt_two_pow (g 0)
+    exact Nat.lt_of_le_of_lt (Nat.shiftRight_le _ _) (g _)
+  · exact Nat.xor_lt_two_pow (g i) (g (i - 1))
+
+/-- the coordinates of every distance lie in the `2^p`-per-side grid, one per dimension -/
+theorem coordN_range (p n h : Nat) : (coordN p n h).length = n ∧ AllLt p (coordN p n h) := by
+  unfold coordN
+  constructor
+  · rw [length_undoLoopN, length_grayDecodeN, length_toTranspose]
+  · apply undoLoopN_allLt n p p (by omega)
+    apply grayDecodeN_allLt
+    intro x hx
+    unfold toTranspose at hx
+    simp only [List.mem_map, List.mem_range] at hx
+    obtain ⟨i, _, rfl⟩ := hx
+    exact transposeWord_lt p n i h
+
+theorem distN_lt (p : Nat) (X : List Nat) : distN p X < 2 ^ (X.length * p) := by
+  unfold distN fromTranspose
+  simp only [length_grayEncodeN, length_redoLoopN]
+  exact bitsum_lt _ _
+
 end SpVerif.Hilbert
